@@ -334,6 +334,8 @@ func checkC03(R *Run) {
 		})
 	}
 	R.floor("go-panic", 10)
+	R.ruleEncoderSliceGuard()
+	R.ruleAcceptLoopSurvives()
 
 	// ---- map-lockset
 	L := newLockInfo(P)
@@ -996,4 +998,160 @@ func cellSym(P *Prog, v ssa.Value) string {
 		return cellSym(P, x.Tuple) + fmt.Sprintf("#%d", x.Index)
 	}
 	return P.sym(v)
+}
+
+// ruleEncoderSliceGuard: the list encoders run in the goroutine of whoever asks for the list, on values another
+// client supplied (icon, flags, names).  A re-slice x[k:] / x[len(x)-k:] of such a variable-length field panics for
+// a shorter value — in the asking client's connection.  Every such re-slice must be dominated by a test of len(x).
+func (R *Run) ruleEncoderSliceGuard() {
+	P := R.P
+	R.rule("encoder-slice-guard", "in the Read encoders, every re-slice with a lower bound of a variable-length byte field of the receiver is dominated by a branch on len of that same field (so that a value of unexpected length, supplied by another client, cannot make the encoder panic inside the connection of whoever requested the list)")
+	n := 0
+	for _, fn := range P.Funcs {
+		if fn.Name() != "Read" || fn.Signature.Recv() == nil || fn.Parent() != nil || fn.Pkg == nil || fn.Pkg.Pkg.Path() != hotPath {
+			continue
+		}
+		eachInstr(fn, func(ins ssa.Instruction) {
+			sl, ok := ins.(*ssa.Slice)
+			if !ok || sl.Low == nil {
+				return
+			}
+			if k, isK := constInt(sl.Low); isK && k == 0 {
+				return
+			}
+			f, isField := loadedField(sl.X)
+			if !isField {
+				return
+			}
+			if _, isSlice := sl.X.Type().Underlying().(*types.Slice); !isSlice {
+				return
+			}
+			// the encoder's own cursor into a buffer it built is the cursor rule's business
+			if strings.HasSuffix(f, ".readOffset") {
+				return
+			}
+			n++
+			guarded := false
+			factEdges(fn, func(e Edge, fc Fact) {
+				var lenCall *ssa.Call
+				switch fc.Kind {
+				case "eq":
+					lenCall, _ = fc.V.(*ssa.Call)
+				case "truth":
+					if b, isB := fc.V.(*ssa.BinOp); isB {
+						lenCall, _ = b.X.(*ssa.Call)
+					}
+				}
+				if lenCall == nil || calleeName(&lenCall.Call) != "builtin.len" || !sameLoc(lenCall.Call.Args[0], sl.X) {
+					return
+				}
+				if (e.To == sl.Block() && len(sl.Block().Preds) == 1) || edgeDominates(fn, e, sl.Block()) {
+					guarded = true
+				}
+			})
+			R.analysed(fname(fn))
+			R.check(guarded, "encoder-slice-guard", fmt.Sprintf("%s: re-slice of %s #%d", fname(fn), shortField(f), n), P.ipos(sl), "under a test of its length", "a field of client-chosen length is re-sliced with a lower bound without a test of its length: a value that is too short makes the encoder panic in the connection of the client that asked for the list")
+		})
+	}
+	if n == 0 {
+		R.ok("encoder-slice-guard", "Read encoders", "-", "no re-slice of a variable-length field with a lower bound")
+	}
+}
+
+// ruleAcceptLoopSurvives: ListenAndServe wraps both accept loops in log.Fatal, so a loop that returns ends the
+// process.  A failed Accept (other than on a closed listener / cancelled context) must lead back to Accept.
+func (R *Run) ruleAcceptLoopSurvives() {
+	P := R.P
+	R.rule("accept-loop-survives", "in Server.Serve and Server.ServeFileTransfers no return is reachable from a failed Accept except on the edge where the error is net.ErrClosed: a transient accept error (file descriptors exhausted by a connection flood) does not end the loop, which would end the process through log.Fatal")
+	for _, name := range []string{"(*hotline.Server).Serve", "(*hotline.Server).ServeFileTransfers"} {
+		fn := R.mustFn(name)
+		if fn == nil {
+			continue
+		}
+		R.analysed(fname(fn))
+		var acc *ssa.Call
+		for _, ci := range callsIn(fn) {
+			if c, ok := ci.(*ssa.Call); ok && c.Call.IsInvoke() && c.Call.Method.Name() == "Accept" {
+				acc = c
+			}
+		}
+		if acc == nil {
+			R.und("accept-loop-survives", fname(fn), P.pos(fn.Pos()), "no Accept call found")
+			continue
+		}
+		ev := errResult(acc)
+		if ev == nil {
+			R.bad("accept-loop-survives", fname(fn), P.ipos(acc), "the error of Accept is dropped")
+			continue
+		}
+		// the error may live in a variable (it does when a closure captures it): its loads in this function
+		// denote the same value as long as this function stores into the variable only once
+		evs := map[ssa.Value]bool{ev: true}
+		init := nilState{ev: 2}
+		for _, r := range *ev.Referrers() {
+			st, ok := r.(*ssa.Store)
+			if !ok {
+				continue
+			}
+			cell, ok := st.Addr.(*ssa.Alloc)
+			if !ok {
+				continue
+			}
+			nLocal := 0
+			eachInstr(fn, func(ins ssa.Instruction) {
+				if s2, ok := ins.(*ssa.Store); ok && s2.Addr == ssa.Value(cell) {
+					nLocal++
+				}
+			})
+			if nLocal != 1 {
+				continue
+			}
+			eachInstr(fn, func(ins ssa.Instruction) {
+				if u, ok := ins.(*ssa.UnOp); ok && u.Op == token.MUL && u.X == ssa.Value(cell) {
+					evs[u] = true
+					init[u] = 2
+				}
+			})
+		}
+		cut := map[Edge]bool{}
+		factEdges(fn, func(e Edge, f Fact) {
+			if f.Kind != "truth" || !f.Holds {
+				return
+			}
+			c, ok := f.V.(*ssa.Call)
+			if !ok || calleeName(&c.Call) != "errors.Is" || len(c.Call.Args) != 2 {
+				return
+			}
+			if g, _ := globalName(c.Call.Args[1]); g == "net.ErrClosed" && evs[stripConv(c.Call.Args[0])] {
+				cut[e] = true
+			}
+		})
+		var witness ssa.Instruction
+		ab := acc.Block()
+		var items []psItem
+		for _, s := range feasibleSuccs(ab, init, true) {
+			if !cut[Edge{ab, s.blk}] {
+				items = append(items, psItem{s.blk, enterBlock(ab, s.blk, s.st)})
+			}
+		}
+		exploreCond(items, cut, nil, true, func(b *ssa.BasicBlock, st nilState) bool {
+			if witness != nil {
+				return false
+			}
+			if b == ab || (b.Dominates(ab) && inLoop(b)) {
+				return false // back at Accept, or at the head of the loop around it (where a cancelled context ends it)
+			}
+			if r, ok := b.Instrs[len(b.Instrs)-1].(*ssa.Return); ok {
+				witness = r
+				return false
+			}
+			return true
+		})
+		pos := P.ipos(acc)
+		if witness != nil {
+			pos = P.ipos(witness)
+		}
+		R.check(witness == nil, "accept-loop-survives", fname(fn), pos, "a failed Accept leads back to Accept (or the listener is closed)", "the accept loop returns after a failed Accept: ListenAndServe passes that to log.Fatal, so a transient error such as EMFILE during a connection flood terminates the server and every session")
+	}
+	R.floor("accept-loop-survives", 2)
 }
